@@ -738,7 +738,16 @@ class Bubble(Box):
         return "Bubble({}{})".format(
             repr(self.inside),
             "" if (self.dom, self.cod) == (self.inside.dom, self.inside.cod)
-            else ", dom={}, cod={})".format(repr(self.dom), repr(self.cod)))
+            else ", dom={}, cod={}".format(repr(self.dom), repr(self.cod)))
+
+    def __eq__(self, other):
+        if isinstance(other, Bubble):
+            return (self.inside, self.dom, self.cod)\
+                == (other.inside, other.dom, other.cod)
+        return super().__eq__(other)
+
+    def __hash__(self):
+        return hash(repr(self))
 
 
 Arrow.sum = Sum
